@@ -142,11 +142,113 @@ def corpus_modify_then_pull(ctx):
     return []
 
 
-def one_history(ctx, e, hseed):
+def corpus_hsm(ctx, e):
+    """scripted Lustre-HSM scenarios, enumerated: a released copy that is either suspect (needs a check) or the source of a
+    pending transfer; the daemon starts the restore; an lfs fault (or none) hits the first call or a later poll; then the
+    faults stop, the tape system completes restores, and fault-free rounds run to a fixed point (same daemon process or a
+    restarted one).  The residue classifier judges the fixed point."""
+    import itertools
+    import json
+    import shutil
+    import world as worldmod
+    import wharness
+    import fakelfs
+    out = []
+    n = 0
+    for role, fault, when, restart in itertools.product(["suspect", "source"], [None, "hsm_state", "hsm_restore", "hsm_action", "vanish"],
+                                                         ["first", "poll"], [False, True]):
+        if fault is None and when == "poll":
+            continue
+        import random
+        rng = random.Random(f"hsm-{role}-{fault}-{when}-{restart}")
+        case = dharness.DWorld.__new__(dharness.DWorld)
+        w = worldmod.World(e)
+        db = w.db
+        for m in (db.StorageTransferAction, db.ArchiveFileCopyRequest, db.ArchiveFileImportRequest, db.ArchiveFileCopy,
+                  db.ArchiveFile, db.ArchiveAcq, db.StorageNode, db.StorageGroup):
+            m.delete().execute()
+        shutil.rmtree(os.path.join(e.tmp, "roots"), ignore_errors=True)
+        gh, gd = w.group("ghsm"), w.group("gd")
+        cfg = json.dumps({"quota_id": "q", "quota_type": "group", "headroom": 10, "lfs": os.path.join(wharness.FAKE, "lfs"),
+                          "restore_wait": 5, "release_check_count": 5})
+        nh = w.node("nh", gh, host="h1", stype="A", io_class="LustreHSM", io_config=cfg)
+        nd = w.node("dst", gd, host="h1", stype="A")
+        acq = w.acq("acq")
+        f = w.file(acq, "f.dat", b"tape-data")
+        w.copy(f, nh, has="M" if role == "suspect" else "Y", wants="Y", ready=False)
+        path = os.path.join(nh.root, "acq", "f.dat")
+        if role == "source":
+            w.req(f, nh, gd)
+        case.env, case.rng, case.w = e, rng, w
+        case.hosts = ["h1"]
+        case.daemons = {"h1": (worldmod.PersistentDaemon if dharness.verif_persistent(e) else worldmod.Daemon)(e, "h1")}
+        case.marker_state = {nh.id: "ok", nd.id: "ok"}
+        case.tracked, case.view, case.initq = set(), {}, {}
+        case.nodes, case.groups, case.files = [nh, nd], [gh, gd], [f]
+        case.rich = case.multi = case.churn = False
+        case.hsm, case.hsm_node = True, nh
+        case.lfs_state = os.path.join(e.tmp, "lfs_state.json")
+        os.environ["VERIF_LFS_STATE"] = case.lfs_state
+        case.lfs_save({"paths": {path: "released"}})
+        fakelfs.install(case.lfs_state)
+        case.set_tools("none", "ok")
+        log = []
+
+        def arm():
+            st = case.lfs_load()
+            if fault == "vanish":
+                os.remove(path)
+                case.tracked.add((nh.id, f.id))
+            elif fault:
+                st["fail"] = {fault: 1}
+                case.lfs_save(st)
+            log.append(f"fault armed: {fault}")
+        try:
+            if when == "first":
+                arm()
+            log.append(f"pass: {[t[1] for t in case.iterate('h1')]}")
+            d = case.daemons["h1"]
+            for _ in range(6):            # run queued tasks until the HSM task has had its first segment
+                r = d.run_task()
+                log.append(f"task: {r and r[1]}")
+                if r is None or "on node nh" in r[1]:
+                    break
+            if when == "poll":
+                arm()
+                d.queue._deferrals = [(k * 1e-9, *x[1:]) for k, x in enumerate(d.queue._deferrals)]
+                r = d.run_task()
+                log.append(f"poll: {r and r[1]}")
+            if restart:
+                case.restart("h1")
+                log.append("daemon restarted")
+            # faults stop
+            sig = dharness.state_sig(case)
+            rounds = 0
+            for rounds in range(1, MAX_ROUNDS + 1):
+                ran = dharness.round_all(case)
+                log.append(f"round {rounds}: {[x[2] for x in ran][:6]}")
+                s2 = dharness.state_sig(case)
+                if s2 == sig:
+                    break
+                sig = s2
+            probs = classify_residue(case) if fault != "vanish" else [p for p in classify_residue(case) if "no verdict" in p]
+        finally:
+            case.close()
+            os.environ["PATH"] = "/usr/local/bin:/usr/bin:/bin"
+        n += 1
+        ctx.case(("hsm-scenario", role, fault, when, restart), nontrivial=True, sample={"scenario": [role, fault, when, restart], "steps": log} if n == 7 else None)
+        ctx.count("hsm-scenarios")
+        for p in probs:
+            out.append((f"{p} [HSM scenario: {role} copy released on tape, lfs fault {fault} at the {when} call, "
+                        f"{'daemon restarted' if restart else 'same daemon process'}]", log))
+    return out
+
+
+def one_history(ctx, e, hseed, hsm=None):
     """a random history, then fault-free rounds to a fixed point; returns (log, rounds, [(key, problem)])"""
     import random
     hr = random.Random(hseed)
-    case, p7, p8, log = c07.run_history(ctx, e, hr, hr.randint(6, 25))
+    case, p7, p8, log = c07.run_history(ctx, e, hr, hr.randint(6, 25), hsm=hsm, keep_open=True)
     # operator activity and faults stop; transports work (scripted rsync / hard links)
     case.set_tools("rsync-only", "ok")
     sig = dharness.state_sig(case)
@@ -191,6 +293,8 @@ def run(ctx):
             for key, p in probs:
                 ctx.violation(key, p, {"kind": "dhistory", "hseed": hseed, "history": log})
         os.environ["PATH"] = "/usr/local/bin:/usr/bin:/bin"
+        for p, steps in corpus_hsm(ctx, e):
+            ctx.violation("residue:hsm:" + p.split("(")[0][:40].replace(" ", "_"), p, {"kind": "hsm-scenario", "steps": steps})
     for p in corpus_modify_then_pull(ctx):
         ctx.violation("modify-md5-nulls-size", p, {"kind": "corpus", "name": "file modify --md5 then pull"})
     with envmod.Env() as e:
@@ -211,6 +315,12 @@ def replay(ctx, path):
     """re-run the recorded history + fault-free rounds (same per-history seed) on the current tree"""
     d = json.load(open(path))
     print(json.dumps({k: d[k] for k in d if k != "history"}, indent=1)[:3000])
+    if d.get("kind") == "hsm-scenario":
+        with envmod.Env(dbfile=True) as e:
+            probs = corpus_hsm(ctx, e)
+        for p, steps in probs:
+            print("VIOLATION-REPRODUCED:", p)
+        return 1 if probs else 0
     if d.get("kind") == "corpus":
         with envmod.Env() as e:
             probs = corpus_modify_then_pull(ctx) if "modify" in d.get("name", "") else corpus_shadowed(e)
